@@ -103,6 +103,11 @@ func (e *Engine) verifyAll(keys []string, tier string, verbose bool, dump, only 
 		}
 		rs = append(rs, r)
 	}
+	if len(keys) > 0 {
+		if lr := e.verifyLemmas(); len(lr.Obs) > 0 || lr.Err != "" {
+			rs = append(rs, lr)
+		}
+	}
 	var all []*Obligation
 	for _, r := range rs {
 		for _, o := range r.Obs {
